@@ -264,7 +264,11 @@ func (a *EpochBitmapAllocator) Stats() (allocated, total uint64, utilization flo
 		}
 	}
 
-	// Total usable IPs (excluding network and broadcast)
+	// Total usable IPs (excluding network and broadcast). A /31 or /32 pool
+	// has none: report 0 instead of wrapping around / dividing by zero.
+	if a.totalIPs <= 2 {
+		return 0, 0, 0
+	}
 	usable := a.totalIPs - 2
 
 	return active, usable, float64(active) / float64(usable)
